@@ -203,7 +203,7 @@ def error_kind(err) -> str | None:
 def make_config(options: dict):
     from halmos.config import ConfigSource, default_config
 
-    base = dict(solver_timeout_branching=0, no_status=True, loop=2, depth=30000, width=0, storage_layout="solidity",
+    base = dict(solver_timeout_branching=0, no_status=True, loop=2, depth=4000, width=0, storage_layout="solidity",
                 symbolic_jump=False, debug=False, verbose=0)
     base.update(options)
     return default_config().with_overrides(ConfigSource.command_line, **base)
